@@ -13,6 +13,7 @@ import (
 	layer2types "github.com/KiraCore/sekai/x/layer2/types"
 	mstypes "github.com/KiraCore/sekai/x/multistaking/types"
 	recoverytypes "github.com/KiraCore/sekai/x/recovery/types"
+	spendingtypes "github.com/KiraCore/sekai/x/spending/types"
 	sdk "github.com/cosmos/cosmos-sdk/types"
 	banktypes "github.com/cosmos/cosmos-sdk/x/bank/types"
 )
@@ -153,6 +154,9 @@ func recipeHistories(r *hx.Rng, seed uint64, reps int) []*History {
 	for rep := 0; rep < reps; rep++ {
 		hs = append(hs, recipeConflictingRoles(r, seed, rep))
 	}
+	for rep := 0; rep < reps+1; rep++ {
+		hs = append(hs, recipeTies(r, seed, rep))
+	}
 	return append(hs, recipePollTies(r, seed), recipeGenesisMaps(r, seed), recipeModuleRecipient(r, seed))
 }
 
@@ -257,4 +261,81 @@ func (w *world) moreTx() TxSpec {
 	default:
 		return tx(i, fmt.Sprintf("a%d", i), &mstypes.MsgClaimUndelegation{Sender: a.String(), UndelegationId: uint64(1 + w.r.Intn(4))})
 	}
+}
+
+// recipeTies: the "ties" family.  Every collection the consensus code SELECTS from (minimum / maximum scan, sort,
+// first match) holds candidates with EQUAL sort keys, then the selecting operation runs: delegators with equal stake in
+// a FULL staking pool (MaxDelegators lowered to 4) pushed out by newcomers, proposals with equal end times and equal
+// votes, beneficiaries with equal weights, councilors with equal rank, validators with equal streaks.  A selection that
+// is fed from a Go map breaks such ties by iteration order.
+func recipeTies(r *hx.Rng, seed uint64, rep int) *History {
+	cfg := baseCfg(seed, 990+rep)
+	cfg.Accounts = 12
+	cfg.Gov = func(g *govtypes.GenesisState) {
+		g.NetworkProperties.MaxDelegators = 4
+		g.NetworkProperties.MinDelegationPushout = 10
+	}
+	w := newWorld(r, cfg)
+	h := &History{Name: fmt.Sprintf("ties-%d", rep), Class: "recipe:ties", Cfg: cfg, Extra: []string{"stream:ties"}}
+	a0 := w.acc[0].Addr
+	v0 := w.val[0].ValAddr.String()
+	del := func(i int, amt int64) TxSpec {
+		return tx(i, fmt.Sprintf("a%d->v0 %dukex", i, amt), &mstypes.MsgDelegate{DelegatorAddress: w.acc[i].Addr.String(), ValidatorAddress: v0, Amounts: coins("ukex", amt)})
+	}
+	claim := func(i int) TxSpec {
+		return tx(i, fmt.Sprintf("a%d", i), &mstypes.MsgClaimRewards{Sender: w.acc[i].Addr.String()})
+	}
+	// block 1: pool, five delegators with exactly equal stake (the pool is full), councilor permissions, equal-weight spending pool
+	b1 := []TxSpec{tx(w.val[0].Owner, "v0 pool", &mstypes.MsgUpsertStakingPool{Sender: a0.String(), Validator: v0, Enabled: true, Commission: sdk.NewDecWithPrec(10, 2)})}
+	for i := 1; i <= 5; i++ {
+		b1 = append(b1, del(i, 1000))
+	}
+	for i := 1; i <= 2; i++ {
+		b1 = append(b1, tx(0, fmt.Sprintf("a%d may claim councilor", i), govtypes.NewMsgWhitelistPermissions(a0, w.acc[i].Addr, uint32(govtypes.PermClaimCouncilor))))
+	}
+	eq := []spendingtypes.WeightedAccount{}
+	for i := 1; i <= 3; i++ {
+		eq = append(eq, spendingtypes.WeightedAccount{Account: w.acc[i].Addr.String(), Weight: sdk.OneDec()})
+	}
+	b1 = append(b1, tx(0, "pool tie, equal weights", &spendingtypes.MsgCreateSpendingPool{Name: "tie", ClaimStart: 0, ClaimEnd: 0, ClaimExpiry: 1000,
+		Rates: sdk.NewDecCoins(sdk.NewDecCoin("ukex", sdk.NewInt(10))), VoteQuorum: sdk.NewDecWithPrec(30, 2), VotePeriod: 300, VoteEnactment: 300,
+		Owners: spendingtypes.PermInfo{OwnerAccounts: []string{a0.String()}}, Beneficiaries: spendingtypes.WeightedPermInfo{Accounts: eq}, Sender: a0.String()}),
+		tx(0, "deposit", &spendingtypes.MsgDepositSpendingPool{Sender: a0.String(), PoolName: "tie", Amount: coins("ukex", 1_000_000)}))
+	// block 2: newcomers bring >= 10x the tied minimum: each pushes one of the tied delegators out; three proposals with one end time
+	b2 := []TxSpec{del(6, 20000), del(7, 20000), del(8, 30000)}
+	for i := 0; i < 3; i++ {
+		m, err := govtypes.NewMsgSubmitProposal(a0, "tie", "equal end time", govtypes.NewUpsertDataRegistryProposal(fmt.Sprintf("tie%d", i), "h", "r", "e", uint64(i)))
+		if err != nil {
+			panic(err)
+		}
+		w.proposals++
+		b2 = append(b2, tx(0, fmt.Sprintf("proposal %d", w.proposals), m),
+			tx(0, fmt.Sprintf("vote %d", w.proposals), govtypes.NewMsgVoteProposal(uint64(w.proposals), a0, govtypes.OptionYes, sdk.ZeroDec())))
+	}
+	for i := 1; i <= 2; i++ {
+		b2 = append(b2, tx(i, fmt.Sprintf("councilor a%d", i), &govtypes.MsgClaimCouncilor{Address: w.acc[i].Addr, Moniker: fmt.Sprintf("council%d", i), Username: fmt.Sprintf("c%d", i)}))
+	}
+	// block 3: everybody claims (who is still registered decides who is paid); beneficiaries register and claim
+	var b3, b5 []TxSpec
+	for i := 1; i <= 8; i++ {
+		b3 = append(b3, claim(i))
+	}
+	for i := 1; i <= 3; i++ {
+		b3 = append(b3, tx(i, "tie", &spendingtypes.MsgRegisterSpendingPoolBeneficiary{Sender: w.acc[i].Addr.String(), PoolName: "tie"}))
+		b5 = append(b5, tx(i, "tie", &spendingtypes.MsgClaimSpendingPool{Sender: w.acc[i].Addr.String(), PoolName: "tie"}))
+	}
+	b4 := []TxSpec{del(9, 300000), del(10, 300000)}
+	for i := 1; i <= 10; i++ {
+		b5 = append(b5, claim(i))
+	}
+	all := map[int]bool{0: true, 1: true, 2: true}
+	h.Blocks = []BlockSpec{
+		{Req: abci.BlockReq{Dt: 5}, Txs: b1},
+		{Req: abci.BlockReq{Dt: 5, Proposer: 1}, Txs: b2},
+		{Req: abci.BlockReq{Dt: 5, Proposer: 2, Absent: all}, Txs: b3}, // all validators miss the same block: equal streaks
+		{Req: abci.BlockReq{Dt: 300, Proposer: 0}, Txs: b4},            // the three proposals end together
+		{Req: abci.BlockReq{Dt: 300, Proposer: 1}, Txs: b5},            // ... and are enacted together
+		{Req: abci.BlockReq{Dt: 5, Proposer: 2}, Txs: []TxSpec{claim(1), claim(6), w.bankSend()}},
+	}
+	return h
 }
